@@ -29,7 +29,10 @@ THEOREMS = ['C12_factor_homomorphism', 'C12_welldim_homogeneous', 'C12_scale_ind
             'C12_log_pressure_shift', 'C12_p_over_p0_invariant', 'C12_p_over_p0_invariant_R',
             'C12_hyps_satisfiable', 'C12_column_hyps_satisfiable', 'C12_held_suarez_hyps_satisfiable',
             'C12_modal_hyps_satisfiable', 'C12_concrete_operators_homogeneous', 'C12_whole_state_tendencies_covariant',
-            'C12_whole_state_step_covariant_partial', 'C12_whole_state_hyps_satisfiable']
+            'C12_whole_state_step_covariant_partial', 'C12_whole_state_hyps_satisfiable',
+            'C12_whole_state_inverse_covariant', 'C12_whole_state_reads_range', 'C12_whole_state_space',
+            'C12_whole_state_step_covariant', 'C12_whole_state_trajectory_covariant', 'C12_whole_state_inverse_hyps_satisfiable',
+            'C12_whole_state_tracers_covariant']
 LEVEL = 'proof'
 LEVEL_TEXT = ('Coq theorems for every field and all non-zero scales: factor is a group homomorphism Z^4 -> F*; EVERY '
               'dimensionally well-typed expression of field operations is scale-covariant (hence re-dimensionalised '
@@ -46,7 +49,11 @@ LEVEL_TEXT = ('Coq theorems for every field and all non-zero scales: factor is a
               '(hard-coded constants) are outside the algebra and are decided on the implementation: same SI problem '
               'under >= 4 scales, all equation classes, plus AST scans of scale-dependent default arguments, of module '
               'constants used in bodies and of numeric literal defaults of dimensional parameters.')
-LEVEL_NOTE = ('theorems are about expression programs and the column/step models; the implementation as a whole '
+LEVEL_NOTE = ('whole-state round: for the executable whole-state model (explicit_terms / implicit_terms / implicit_inverse as '
+              'compositions of the concrete transforms) the operator hypotheses are theorems and tendencies, tracers, the implicit '
+              'solve, every integrator and trajectories are proved scale-covariant on the index range (inverse tables two-sided: '
+              'table obligation); the model is tied to the code by correspondence on a tiny real grid under a non-default scale. '
+              'Otherwise: theorems are about expression programs and the column/step models; the implementation as a whole '
               '(spectral transforms, JAX) is tied to them by the multi-scale oracle and the call-site scan, not by proof')
 TECHNIQUE = 'Coq proof (dimension typing => scale covariance) + multi-scale differential oracle on the implementation + AST call-site scan'
 
@@ -235,7 +242,8 @@ def generate(ctx):
     # scales; the exact model is evaluated at the scales listed in 'model_at' (cost: K=2 ~15 s per explicit_terms call)
     wplan = [(2, [1])] if quick else [(2, [0, 1]), (3, [1]), (2, [1])]
     for K, model_at in wplan:
-        yield 'whole_state_scales', {'K': K, 'seed': seed(), 'model_at': model_at,
+        yield 'whole_state_scales', {'K': K, 'seed': seed(), 'model_at': model_at, 'nsteps': 2, 'ntr': 1,
+                                     'integrators': ['crank_nicolson_rk2', 'backward_forward_euler'] if quick else list(dyn.INTEGRATORS),
                                      'scales': [_dyadic_scale(rng), _dyadic_scale(rng)] if K == 2 else ['default', _dyadic_scale(rng)],
                                      'grid': {'route': 'plain', 'M': 3, 'L': 4, 'I': 8, 'J': 4}}
     # nearly isothermal reference profiles x one base unit at a time pushed to 1e+-3 / 1e+-6 (absolute thresholds on
@@ -1551,16 +1559,22 @@ def _flat4(st):
 
 
 def r_whole_state_scales(ctx, a):
-    m = M(); pe = m['pe']
+    m = M(); pe = m['pe']; ti = m['ti']
     A = lambda x: float(np.max(np.abs(np.asarray(x, dtype=np.float64)))) if np.size(x) else 0.0
     rng = np.random.Generator(np.random.PCG64(a['seed']))
     K = a['K']
     p = _pe_problem(rng, 'dry', K, gridkw=a['grid'])
     for k_ in ('vort', 'div', 'temp', 'oro', 'ps'):
         p[k_] = _dy(p[k_], 7 if k_ != 'ps' else 12)
+    if a.get('ntr', 0):
+        # passive dimensionless tracers (C12_whole_state_tracers_covariant): compared through the SI oracle
+        g0_ = _mkgrid(**a['grid'])
+        p['tracers'] = {'tracer%d' % i_: _dy(dyn.modal_field(rng, g0_, (K,), 2, False, 0.004)) for i_ in range(int(a['ntr']))}
+        for t_ in p['tracers']:
+            p['tracers'][t_][:, 0, 0] += 0.015625
     p['tref'] = np.round(p['tref'])
     labels = a['scales']
-    R = {k: [] for k in ('explicit', 'implicit', 'inverse')}
+    R = {k: [] for k in ('explicit', 'implicit', 'inverse', 'steps')}
     fields = ['vorticity', 'divergence', 'temperature_variation', 'log_surface_pressure']
     for idx, sv in enumerate(labels):
         specs, g, c, st, eq = _pe_setup(sv, p, 'dry')
@@ -1569,6 +1583,25 @@ def r_whole_state_scales(ctx, a):
         R['explicit'].append(_pe_tend_si(specs, ex, '', _gmax(ex)))
         R['implicit'].append(_pe_tend_si(specs, im, '', _gmax(im)))
         R['inverse'].append(_pe_state_si(specs, g, inv_st, 'eta=0.5dt: ', _gmax(st)))
+        # okS of C12_whole_state_step_covariant: np.linalg.inv of the implicit matrices is two-sided, under EVERY scale, for
+        # the step sizes used below (0.5 dt: implicit_inverse / crank_nicolson_rk2; dt: backward_forward_euler)
+        Tref_nd = np.asarray(eq.reference_temperature, dtype=np.float64)
+        for fr in (0.5, 1.0):
+            mat_ = np.asarray(pe._get_implicit_term_matrix(fr * dt, c, Tref_nd, specs.kappa, specs.R), dtype=np.float64)
+            inv_ = np.linalg.inv(mat_); n_ = mat_.shape[-1]
+            res_ = max(A(np.einsum('lij,ljk->lik', inv_, mat_) - np.eye(n_)), A(np.einsum('lij,ljk->lik', mat_, inv_) - np.eye(n_)))
+            ctx.table_obligation('okS: np.linalg.inv(implicit_matrix) is a two-sided inverse under every scale (whole-state step theorems)',
+                                 res_ <= 2.0 ** -30 * max(1.0, A(inv_) * A(mat_)), {'residual': res_, 'scale': sv, 'step/dt': fr})
+        ctx.table_obligation('th0_nz, thK_nz: top and bottom layer thickness non-zero',
+                             bool(c.vertical.layer_thickness[0] != 0 and c.vertical.layer_thickness[-1] != 0), None)
+        steps = Out()
+        for integ in a.get('integrators', []):
+            stepf = ti.step_with_filters(dyn.integrator(integ, eq, dt), [])
+            s_ = st
+            for n_ in range(int(a.get('nsteps', 2))):
+                s_ = stepf(s_)
+                steps.merge(_pe_state_si(specs, g, s_, f'{integ} step {n_ + 1}: ', (n_ + 1) * _gmax(s_, st)))
+        R['steps'].append(steps)
         ctx.table_obligation('r_nz, R_nz of C12_whole_state_tendencies_covariant: non-dimensional radius and gas constant are non-zero',
                              bool(g.radius != 0 and specs.R != 0 and np.isfinite(g.radius)), {'radius': float(g.radius), 'R': float(specs.R), 'scale': sv})
         if idx not in a['model_at']:
@@ -1648,6 +1681,8 @@ def r_whole_state_scales(ctx, a):
     _cmp(ctx, 'whole state (tiny real grid): explicit_terms equal in SI under both scales', R['explicit'], labels)
     _cmp(ctx, 'whole state (tiny real grid): implicit_terms equal in SI under both scales', R['implicit'], labels)
     _cmp(ctx, 'whole state (tiny real grid): implicit_inverse (0.5 dt) equal in SI under both scales', R['inverse'], labels)
+    if a.get('integrators'):
+        _cmp(ctx, 'whole state (tiny real grid): time steps (C12_whole_state_step_covariant) equal in SI under both scales', R['steps'], labels)
 
 
 RUNNERS = {'grid_routes': r_grid_routes, 'pe_extreme': r_pe_extreme, 'sw_extreme': r_sw_extreme, 'dfi': r_dfi, 'winds': r_winds, 'threshold_scan': r_threshold_scan,
